@@ -135,6 +135,13 @@ func (m *c07mon) after(s *sim, st rig.StepResult, ctx stepCtx) {
 			if T != 2 {
 				vk.Violation(s.t, c, "C07/negotiated-reset-counters", "after the negotiated reset the expected number is %d, want 2\n%s", T, s.history())
 			}
+		} else {
+			// the engine's own Logon on this connection did not carry the flag: the counterparty's
+			// Logon (number 1, flag set) is a reset the engine has to follow - both sides number from 1
+			m.feat["reset-requested-by-logon-answer"] = true
+			if resets == 0 || T != 2 || S != 1 {
+				vk.Violation(s.t, c, "C07/received-reset-flag-not-followed", "Logon answer with ResetSeqNumFlag=Y (number 1): store resets in this step %d, counters S=%d T=%d, expected a reset and S=1 T=2\n%s", resets, S, T, s.history())
+			}
 		}
 	}
 	// ---- stability outside of resets
@@ -298,6 +305,22 @@ func c07Property(t *rapid.T) {
 		peerResets := s.cfg.begin != "FIX.4.0" && rapid.IntRange(0, 3).Draw(t, "peer-sends-reset-flag") == 0
 		if !s.connect() {
 			t.Fatalf("harness: connect refused\n%s", s.history())
+		}
+		if s.cfg.initiator && rapid.IntRange(0, 4).Draw(t, "logon-unanswered") == 0 {
+			// nobody answers: the logon times out (no disconnect event is delivered on this path)
+			how := rapid.SampledFrom([]string{"logon-timeout", "connection-closed"}).Draw(t, "ends-by")
+			if how == "logon-timeout" {
+				s.timer(2)
+			} else {
+				s.disconnect()
+			}
+			mon.feat["unanswered-logon:"+how] = true
+			if s.r.V.IsConnected() {
+				s.disconnect()
+			}
+			if !s.connect() {
+				t.Fatalf("harness: reconnect refused\n%s", s.history())
+			}
 		}
 		// an initiator whose Logon carries the flag has reset: a faithful counterparty follows
 		engineFlag := false
